@@ -57,10 +57,10 @@ pub fn fa_rset_iter<N: Nd>(nd: &mut N) {
 }
 
 /// FASTQ record set from parts
-pub fn fq_rset_iter<N: Nd>(nd: &mut N) {
+pub fn fq_rset_iter<N: Nd, const NP: usize>(nd: &mut N) {
     use fastq::Record;
     let a = any_fq_record(nd, true);
-    let npos = nd.usize_in(0, 2);
+    let npos = NP;
     let mut pos = Vec::with_capacity(2);
     if npos >= 1 {
         pos.push(a.bufpos());
@@ -96,8 +96,15 @@ pub fn fq_rset_iter<N: Nd>(nd: &mut N) {
         }
         k += 1;
     }
-    cover!(npos == 2, "two records");
+    cover!(cnt == NP, "all records iterated");
     std::mem::forget(rset);
+}
+
+pub fn fq_rset_iter_1<N: Nd>(nd: &mut N) {
+    fq_rset_iter::<N, 1>(nd)
+}
+pub fn fq_rset_iter_2<N: Nd>(nd: &mut N) {
+    fq_rset_iter::<N, 2>(nd)
 }
 
 /// C06/C20: every kind of read after the end of input (state Finished, arbitrary stale
@@ -304,11 +311,13 @@ pub fn err_id_f8<N: Nd>(nd: &mut N) {
 harnesses! {
     /// @meta props=C04,C20 tier=quick kind=R timeout=1500 mem=12 unwind=10 bounds="FASTA RecordSet from parts: buffer <= 8 bytes, one live single-line record + one (possibly stale) position, npos 0..=2"
     misc_fa_rset_iter => fa_rset_iter;
-    /// @meta props=C04,C20 tier=quick kind=R timeout=1500 mem=12 unwind=12 bounds="FASTQ RecordSet from parts: buffer <= 10 bytes, 0..=2 positions of a valid record"
-    misc_fq_rset_iter => fq_rset_iter;
-    /// @meta props=C06,C20 tier=quick kind=S timeout=1500 mem=12 unwind=6 bounds="both readers in the finished state with arbitrary stale coordinates (full 64-bit), window of 4 bytes: next, read_record_set, read_record_set_exact(2), records(), into_records()"
+    /// @meta props=C04,C20 tier=quick kind=R timeout=1500 mem=12 unwind=12 bounds="FASTQ RecordSet from parts: buffer <= 10 bytes, 1 position of a valid record"
+    misc_fq_rset_iter_1 => fq_rset_iter_1;
+    /// @meta props=C04,C20 tier=thorough kind=R timeout=1500 mem=16 unwind=12 bounds="FASTQ RecordSet from parts: buffer <= 10 bytes, 2 positions of a valid record"
+    misc_fq_rset_iter_2 => fq_rset_iter_2;
+    /// @meta props=C06,C20,C04:t tier=quick kind=S timeout=1500 mem=12 unwind=6 bounds="both readers in the finished state with arbitrary stale coordinates (full 64-bit), window of 4 bytes: next, read_record_set, read_record_set_exact(2), records(), into_records()"
     misc_post_end => post_end_f4;
-    /// @meta props=C14 tier=quick kind=S timeout=1500 mem=12 unwind=8 unwindset="seq_io::fill_buf:3" bounds="seek() of both readers to every target beyond a 3-byte window of a 6-byte file, the source failing in seek or in the following read with any of 4 error kinds"
+    /// @meta props=C14,C05:t tier=quick kind=S timeout=1500 mem=12 unwind=8 unwindset="seq_io::fill_buf:3" bounds="seek() of both readers to every target beyond a 3-byte window of a 6-byte file, the source failing in seek or in the following read with any of 4 error kinds"
     misc_seek_fault => seek_fault_f6_c3;
     /// @meta props=C17 tier=quick kind=K timeout=1500 mem=12 unwind=10 bounds="fastq::Reader::get_error_pos on every group start of every ASCII file <= 8 bytes (from_utf8_lossy stubbed by the identity on ASCII)"
     #[kani::stub(std::string::String::from_utf8_lossy, crate::misc::stub_lossy_ascii)]
